@@ -1000,4 +1000,105 @@ theorem revert_preserves_nodup (t t' : Track) (hr : revert t = some t') (h : Nod
     subst hr
     exact applyForce_nodup _ _ _ (nodesNodup_kept _ h) h1
 
+/-! ### revert preserves sortedness; database-level meaning of a reverted track's state updates -/
+
+def AllSorted (nodes : Nodes) : Prop := ∀ n p, SMap.Sorted (partOf nodes n p)
+
+theorem allSorted_putIn (nodes : Nodes) (n p k : Nat) (tv : TV) (h : AllSorted nodes) :
+    AllSorted (putIn nodes n p k tv) := by
+  intro n' p'
+  unfold putIn
+  rw [partOf_alterPart]
+  split
+  · exact SMap.sorted_insert _ _ _ (h n p)
+  · exact h n' p'
+
+theorem allSorted_kept (nodes : Nodes) (hn : IMap.Nodup nodes) (h : AllSorted nodes) :
+    AllSorted ((IMap.retain nodes (fun _ nd => !nd.isNew)).map
+      (fun nn => (nn.1, nn.2.revertWrites))) := by
+  intro n p
+  have hs := h n p
+  unfold partOf at hs ⊢
+  rw [imap_get_kept nodes hn n]
+  cases hg : IMap.get? nodes n with
+  | none => simp [SMap.Sorted]
+  | some nd =>
+    rw [hg] at hs
+    simp only [] at hs ⊢
+    by_cases hnew : nd.isNew = true
+    · simp [hnew, SMap.Sorted]
+    · have hnew' : nd.isNew = false := by simpa using hnew
+      simp only [hnew', Bool.false_eq_true, if_false, TNode.revertWrites, imap_get_map_parts]
+      cases hp : IMap.get? nd.parts p with
+      | none => simp [SMap.Sorted]
+      | some part =>
+        rw [hp] at hs
+        simp only [Option.map] at hs ⊢
+        unfold SMap.Sorted at hs ⊢
+        rw [List.pairwise_map]
+        exact hs
+
+theorem applyForcePart_sorted (n p : Nat) (part : TPart) (nodes nodes' : Nodes) (h : AllSorted nodes)
+    (hr : applyForcePart nodes n p part = some nodes') : AllSorted nodes' := by
+  induction part generalizing nodes with
+  | nil => simp only [applyForcePart, Option.some.injEq] at hr; exact hr ▸ h
+  | cons ktv rest ih =>
+    simp only [applyForcePart, replaceExisting] at hr
+    split at hr
+    · exact absurd hr (by simp)
+    · rename_i nodes1 h1
+      split at h1
+      · exact absurd h1 (by simp)
+      · simp only [Option.some.injEq] at h1
+        exact ih _ (h1 ▸ allSorted_putIn _ _ _ _ _ h) hr
+
+theorem applyForceNode_sorted (n : Nat) (parts : List (Nat × TPart)) (nodes nodes' : Nodes)
+    (h : AllSorted nodes) (hr : applyForceNode nodes n parts = some nodes') : AllSorted nodes' := by
+  induction parts generalizing nodes with
+  | nil => simp only [applyForceNode, Option.some.injEq] at hr; exact hr ▸ h
+  | cons pp rest ih =>
+    simp only [applyForceNode] at hr
+    split at hr
+    · exact absurd hr (by simp)
+    · rename_i nodes1 h1
+      exact ih _ (applyForcePart_sorted _ _ _ _ _ h h1) hr
+
+theorem applyForce_sorted (force : Nodes) (nodes nodes' : Nodes)
+    (h : AllSorted nodes) (hr : applyForce nodes force = some nodes') : AllSorted nodes' := by
+  induction force generalizing nodes with
+  | nil => simp only [applyForce, Option.some.injEq] at hr; exact hr ▸ h
+  | cons nn rest ih =>
+    simp only [applyForce] at hr
+    split at hr
+    · exact absurd hr (by simp)
+    · rename_i nodes1 h1
+      exact ih _ (applyForceNode_sorted _ _ _ _ h h1) hr
+
+/-- `revert_preserves_sorted`: partitions of the reverted track stay key-sorted (`BTreeMap`) -/
+theorem revert_preserves_sorted (t t' : Track) (hr : revert t = some t') (hn : IMap.Nodup t.nodes)
+    (h : AllSorted t.nodes) : AllSorted t'.nodes := by
+  simp only [revert] at hr
+  split at hr
+  · exact absurd hr (by simp)
+  · rename_i nodes' h1
+    simp only [Option.some.injEq] at hr
+    subst hr
+    exact applyForce_sorted _ _ _ (allSorted_kept _ hn h) h1
+
+/-- `revert_state_updates_meaning`: the state updates of a reverted track (no partition deletion)
+mean, at the database level, exactly `effCommit` of the reverted track — so the tracked-value
+theorems above (`revert_keeps_force_writes`, `revert_tracked_value`) determine, substate by
+substate, what a failed transaction commits. -/
+theorem revert_state_updates_meaning (t t' : Track) (hr : revert t = some t')
+    (hn : NodesNodup t.nodes) (hs : AllSorted t.nodes) (hd : t.deleted = []) (n p k : Nat) :
+    (t'.db.commit (toStateUpdates t').2).get (n, p) k = effCommit t' n p k := by
+  have hd' : t'.deleted = [] := by
+    simp only [revert] at hr
+    split at hr
+    · exact absurd hr (by simp)
+    · simp only [Option.some.injEq] at hr
+      rw [← hr]; exact hd
+  exact state_updates_meaning t' (revert_preserves_nodup t t' hr hn)
+    (revert_preserves_sorted t t' hr hn.outer hs) hd' n p k
+
 end Radix.Track
